@@ -627,6 +627,20 @@ def run_property(pid: str, tier: str, seed: int) -> int:
             except (Exception, HarnessFault) as ex:  # fail closed
                 obligations += 1
                 ctx.obligation_broken("translator:" + pid, "".join(traceback.format_exception_only(type(ex), ex)))
+                # The obligation stays broken.  For the violation search the model should still be the UNCHANGED tree's (not
+                # whatever an earlier run left in coq/gen): regenerate from the committed source of the repository, if any.
+                try:
+                    os.environ["VERIF_T1_SOURCE"] = "HEAD"
+                    for rel, text in mod.translate(ctx).items():
+                        path = COQ / rel
+                        path.parent.mkdir(parents=True, exist_ok=True)
+                        if not path.exists() or path.read_text() != text:
+                            path.write_text(text)
+                    ctx.notes.append("generated files taken from the committed source (HEAD) because the reader failed on the working tree")
+                except (Exception, HarnessFault):
+                    pass
+                finally:
+                    os.environ.pop("VERIF_T1_SOURCE", None)
         # 2. Coq cone of the property theorems
         for rel in mod.PROPS:
             ths = theorems_in_props(rel)
